@@ -1025,7 +1025,23 @@ func (se *SpecEnv) callSpec(c *ast.CallExpr) Value {
 			pa, ok1 := a.(*PtrV)
 			pb, ok2 := b.(*PtrV)
 			if ok1 && ok2 {
-				return F.Bool(pa.Obj == pb.Obj && samePath(pa.Path, pb.Path))
+				if pa.Obj != pb.Obj || len(pa.Path) != len(pb.Path) {
+					return F.False()
+				}
+				// the same cell of the same object: path components are compared as integers (a symbolic index may be
+				// written differently on the two sides)
+				eq := F.True()
+				for k := range pa.Path {
+					ta, tb := pa.Path[k].T, pb.Path[k].T
+					if ta == nil {
+						ta = F.I64(int64(pa.Path[k].I))
+					}
+					if tb == nil {
+						tb = F.I64(int64(pb.Path[k].I))
+					}
+					eq = F.And(eq, F.Eq(ta, tb))
+				}
+				return eq
 			}
 			if sa, oks := a.(*SliceV); oks {
 				// slices: the same window of the same backing object
